@@ -36,13 +36,17 @@ def run_part(ctx):
                     oracle_bad.append((name, f, "dtype %s" % t.dtype))
             except Exception:
                 got = None
-            # oracle: torch accepts varargs or a single sequence of non-negative ints
-            try:
-                want = list(getattr(torch, name)(*f).shape)
-            except Exception:
-                want = None
-            if got != want:
-                oracle_bad.append((name, f, {"synapgrad": got, "torch": want}))
+            # oracle (independent of the Coq model): the documented forms are varargs of ints or one list/tuple of ints;
+            # an accepted call must have exactly numpy's shape for those sizes; anything else must raise
+            if len(f) == 1 and isinstance(f[0], (list, tuple)):
+                sizes = list(f[0])
+            else:
+                sizes = list(f)
+            legal = all(isinstance(x, int) and x >= 0 for x in sizes)
+            if got is not None and (not legal or got != sizes):
+                oracle_bad.append((name, f, {"synapgrad": got, "documented": sizes if legal else "illegal form"}))
+            if got is None and legal and not (name in ("rand", "randn") and sizes == []):
+                oracle_bad.append((name, f, {"synapgrad": "rejected", "documented": sizes}))
             rows.append((f, got, name))
             distinct.add(repr(f))
     items = ["(%s, %s)" % (clist([sarg(a) for a in f]), "None" if got is None else "Some %s" % clist([cz(x) for x in got])) for f, got, _ in rows]
@@ -52,9 +56,9 @@ def run_part(ctx):
         try:
             t = sg.arange(start, stop, step)
             ar.append(((start, stop, step), len(t.data), [int(v) for v in t.data]))
-            ref = torch.arange(start, stop, step)
-            if [int(v) for v in ref] != [int(v) for v in t.data]:
-                oracle_bad.append(("arange", (start, stop, step), "differs from torch"))
+            ref = list(range(start, stop, step))      # the documented semantics: start + k*step strictly before stop
+            if ref != [int(v) for v in t.data]:
+                oracle_bad.append(("arange", (start, stop, step), {"synapgrad": [int(v) for v in t.data], "range": ref}))
         except Exception:
             ar.append(((start, stop, step), None, None))
     aritems = ["((%s,%s,%s), %s)" % (cz(a), cz(b), cz(c), "None" if n is None else "Some %s" % cz(n)) for (a, b, c), n, _ in ar]
@@ -67,22 +71,29 @@ From SG Require Import Base.Cmp NumPy.Ctor.
 Definition c1 : list (list sarg * option (list Z)) := [%s].
 Definition c2 : list ((Z*Z*Z) * option Z) := [%s].
 Definition c3 : list ((Z*Z) * list Z) := [%s].
+Definition c1r : list (list sarg * option (list Z)) := [%s].
 Eval vm_compute in (mismatches norm_shape_args (option_eqb (list_eqb Z.eqb)) c1).
+Eval vm_compute in (mismatches norm_shape_args_rand (option_eqb (list_eqb Z.eqb)) c1r).
 Eval vm_compute in (mismatches (fun '(a,b,c) => arange_len a b c) (option_eqb Z.eqb) c2).
 Eval vm_compute in (mismatches (fun '(a,c) => map (arange_nth a c) (map Z.of_nat (seq 0 0))) (fun _ _ => true) c3).
 Eval vm_compute in (mismatches (fun p => let '(a,c) := fst p in map (fun k => arange_nth a c (Z.of_nat k)) (seq 0 (length (snd p)))) (list_eqb Z.eqb) (map (fun p => (p, snd p)) c3)).
-""" % (";\n ".join(items), "; ".join(aritems), "; ".join(valitems))
+""" % (";\n ".join(it for it, r in zip(items, rows) if r[2] not in ("rand", "randn")), "; ".join(aritems), "; ".join(valitems),
+       ";\n ".join(it for it, r in zip(items, rows) if r[2] in ("rand", "randn")))
     ok, out = ctx.coq_eval("ctor", txt)
     from checks.c07 import parse_natlist
     lists = parse_natlist(out)
-    if not ok or len(lists) != 4:
+    if not ok or len(lists) != 5:
         mism.append({"error": out[-500:]})
     else:
+        r0 = [r for r in rows if r[2] not in ("rand", "randn")]
+        r1 = [r for r in rows if r[2] in ("rand", "randn")]
         for i in lists[0]:
-            mism.append({"ctor": rows[i][2], "args": repr(rows[i][0]), "implementation_shape": rows[i][1]})
+            mism.append({"ctor": r0[i][2], "args": repr(r0[i][0]), "implementation_shape": r0[i][1]})
         for i in lists[1]:
+            mism.append({"ctor": r1[i][2], "args": repr(r1[i][0]), "implementation_shape": r1[i][1]})
+        for i in lists[2]:
             mism.append({"arange": ar[i][0], "implementation_len": ar[i][1]})
-        for i in lists[3]:
+        for i in lists[4]:
             mism.append({"arange_values": valitems[i]})
     # eye
     for n in (0, 1, 3):
